@@ -443,7 +443,19 @@ func c16BuildOps(cfg *c16Cfg) []c16Op {
 					j := s.liveJob(pn)
 					return j != nil && c16Phase(j) == v1alpha1.PodMigrationJobPending && (c16Passed(j) || j.Labels["touched"] != "")
 				},
-				apply: func(s *c16Sys) { s.setPhase(s.liveJob(pn), v1alpha1.PodMigrationJobRunning) }},
+				apply: func(s *c16Sys) {
+					// preparePendingJob: write the pod UID into the spec (Update), then the phase (Status().Update)
+					j := s.liveJob(pn)
+					cur := s.getJob(j.Name)
+					ps := c16Spec(pn)
+					cur.Spec.PodRef.UID = types.UID(ps.ns + "/" + ps.name)
+					if err := s.cl.Update(context.TODO(), cur); err != nil {
+						panic(err)
+					}
+					s.fresh = false
+					s.h.Update(context.TODO(), event.UpdateEvent{ObjectOld: j.DeepCopy(), ObjectNew: s.getJob(j.Name)}, c16NopQueue{})
+					s.setPhase(s.liveJob(pn), v1alpha1.PodMigrationJobRunning)
+				}},
 			// the job completes: Running -> Succeeded, passed-but-not-started -> Aborted (timeout path)
 			c16Op{name: "finish(" + pn + ")", pod: pn, kind: "finish",
 				enabled: func(s *c16Sys) bool {
